@@ -70,6 +70,19 @@ def _distinct(edges):
     return out
 
 
+def _per_edge(edges):
+    """one symmetric migration per edge, every edge with its own rate: many rate classes of two ordered pairs each"""
+    return [{"demes": [f"d{a}", f"d{b}"], "rate": (k + 1) * 2.0 ** -24} for k, (a, b) in enumerate(edges)]
+
+
+def fam_ring_per_edge(n):
+    return _hdr(_flat(n), _per_edge(_edges_ring(n)))
+
+
+def fam_star_per_edge(n):
+    return _hdr(_flat(n), _per_edge(_edges_star(n)))
+
+
 def fam_island_shared(n):
     return _hdr(_flat(n), [{"demes": [f"d{i}" for i in range(n)], "rate": RATE}])
 
@@ -164,6 +177,8 @@ FAMILIES = {
     "path_distinct": (fam_path_distinct, False, "lin"),
     "star_shared": (fam_star_shared, True, "exp"),
     "star_distinct": (fam_star_distinct, False, "lin"),
+    "ring_per_edge": (fam_ring_per_edge, False, "lin"),
+    "star_per_edge": (fam_star_per_edge, False, "lin"),
     "chain": (fam_chain, False, "lin"),
     "epochs": (fam_epochs, False, "lin"),
     "pulses_distinct": (fam_pulses_distinct, False, "lin"),
@@ -292,7 +307,7 @@ if __name__ == "__main__" and len(sys.argv) >= 3 and sys.argv[1] == "--child":
 # parent
 # ----------------------------------------------------------------------------------------------
 
-RULE = ("14 model families (islands/cliques, rings, paths, stars with one shared rate and with pairwise distinct rates, "
+RULE = ("16 model families (islands/cliques, rings, paths, stars with one shared rate and with pairwise distinct rates, "
         "clique with distinct time bounds, ancestry chain, one deme with n epochs, n pulses at distinct times / at one "
         "time, n migrations over alternating intervals) x 11 public operations x sizes 4..40 (4..20 for families with "
         "n^2 migrations, 4..16/18 for the shared-rate search); a case is one (family, operation, size) line count; "
